@@ -51,7 +51,13 @@ func genCaps(r *core.Rand) []string {
 }
 
 func GenLink(r *core.Rand) pipe.Plan {
-	return pipe.Plan{AB: GenDir(r), BA: GenDir(r), CapsA: genCaps(r), CapsB: genCaps(r)}
+	l := pipe.Plan{AB: GenDir(r), BA: GenDir(r), CapsA: genCaps(r), CapsB: genCaps(r)}
+	// a "tight" link: both directions hold only a few bytes (net.Pipe, a serial
+	// line without buffers); then even a short error echo can block its writer
+	if r.Chance(0.12) {
+		l.AB.Window, l.BA.Window = r.Range(1, 40), r.Range(1, 40)
+	}
+	return l
 }
 
 var motds = []string{"Welcome to the simulated RMS", "Hello there", "*** MTD Stats Total connects = 2580 Total messages = 3900", "Line with trailing spaces  ", "73 de sim"}
